@@ -6,4 +6,4 @@ Set Extraction Optimize.
 Extraction Language OCaml.
 Extraction "extracted/c14_model.ml" parse_compact parse_compact6 parse_bencode_peers parse_normal normalize
   pl_run udp_run http_receive_done tstate0 tx_connect tx_announce pton4 pton6 sort_and_unique
-  dht_envelope dht_datagram dht_reply_values sm_read dht ent_raw_string pex_apply k_r_nodes pi_run http_two_families dht_find_node_reply search_run.
+  dht_envelope dht_datagram dht_reply_values sm_read dht ent_raw_string pex_apply k_r_nodes pi_run http_two_families dht_find_node_reply search_run udp_run_pending http_announces.
